@@ -606,3 +606,25 @@ Theorem C18_sum_decision_follows_history : forall (l : list scomp) (mods : list 
   length (sum_history l mods) = length l.
 Proof. intros l mods P c. split; [apply sum_history_decision | apply sum_history_length]. Qed.
 Print Assumptions C18_sum_decision_follows_history.
+
+(* ---- one metadynamics hill and one OPES kernel, evaluated through the variable's own distance: the same energy and force for
+   equivalent values and centres (wrapped, whole periods, quaternion sign) - in particular across the periodic boundary ---- *)
+Theorem C18_hill_and_kernel_see_equivalent_values : forall (W sigma : R),
+  (forall kind x c, comp_ok kind ->
+     hill_energy Rops PI W sigma kind (comp_wrap Rops kind x) (comp_wrap Rops kind c) = hill_energy Rops PI W sigma kind x c /\
+     hill_force Rops PI W sigma kind (comp_wrap Rops kind x) (comp_wrap Rops kind c) = hill_force Rops PI W sigma kind x c) /\
+  (forall P c0 x c (n m : Z), 0 < P ->
+     hill_energy Rops PI W sigma (KPeriodic P c0) (VS (x + IZR n * P)) (VS (c + IZR m * P)) = hill_energy Rops PI W sigma (KPeriodic P c0) (VS x) (VS c) /\
+     hill_force Rops PI W sigma (KPeriodic P c0) (VS (x + IZR n * P)) (VS (c + IZR m * P)) = hill_force Rops PI W sigma (KPeriodic P c0) (VS x) (VS c)) /\
+  (forall q c,
+     hill_energy Rops PI W sigma KQuat (VQ (qneg Rops q)) (VQ c) = hill_energy Rops PI W sigma KQuat (VQ q) (VQ c) /\
+     hill_energy Rops PI W sigma KQuat (VQ q) (VQ (qneg Rops c)) = hill_energy Rops PI W sigma KQuat (VQ q) (VQ c)) /\
+  (forall cut vac P c0 kc x (n m : Z), 0 < P ->
+     opes_kernel Rops PI W sigma cut vac (KPeriodic P c0) (kc + IZR n * P) (x + IZR m * P) = opes_kernel Rops PI W sigma cut vac (KPeriodic P c0) kc x /\
+     opes_kernel Rops PI W sigma cut vac (KPeriodic P c0) (cvc_wrap Rops c0 P kc) (cvc_wrap Rops c0 P x) = opes_kernel Rops PI W sigma cut vac (KPeriodic P c0) kc x).
+Proof.
+  intros W sigma. split; [intros kind x c Hk; apply hill_wrap; exact Hk|].
+  split; [intros P c0 x c n m HP; apply hill_periodic_images; exact HP|].
+  split; [intros q c; apply hill_quaternion_sign | intros cut vac P c0 kc x n m HP; apply opes_kernel_images; exact HP].
+Qed.
+Print Assumptions C18_hill_and_kernel_see_equivalent_values.
